@@ -21,6 +21,8 @@ LEVEL_TEXT = ('Decides from the source: every argument of compile() that flows i
               'interleavings and equality with a fresh interpreter are not decided.')
 TECHNIQUE += '; shared-configuration rule (no setter or method of a shared model rebinds or mutates the configuration object other holders see); class-level containers and name-keyed registries included in the inventory'
 LEVEL_TEXT += ' Added clause: configuration objects held by a model are not rebound or mutated through property setters.'
+TECHNIQUE += '; publish-last rule for lazily cached objects (no call on the object after it was stored where later calls return it)'
+LEVEL_TEXT += ' Added clause: a thread that parses while another thread builds the optimized grammar never receives the unfinished object.'
 LEVEL_NOTE = 'Trusted: dataclasses.replace / ParserConfig.new / Config.override return new objects; id(x) of a dead object can be reused.'
 EXPLANATION = ('Static analysis of /repo sources, TatSu not imported. Def-use chains inside api.compile relate parameters to '
                'the cache key and to the cached value; the package is scanned for shared mutable state and each store site is '
